@@ -31,6 +31,8 @@ var vpC02Texts = []string{
 	"a = b = c", "$a = $b = 1, $a", "a, b = c, d", "(a, b) = c", "a = b ? c : d", "a ? b : c = d", "a ?? b || c && d | e ^ f & g == h < i + j * k", "a * b + c < d == e & f ^ g | h && i || j ?? k",
 	"-!a", "!-a", "~-a.b", "!!-~a", "x * -!y", "f(+~a)", "- - a", "-typeof !~a", "a.b(c).d(e)(f)", "a(b)(c).d!.e", "[[a], [b, [c]]]", "((a))", "(a)(b)", "a.b.c!.d.e",
 	"f(a, b...)", "f(...a)", "f(a..., b)", "a ? : b", "a ? b :", "? a : b", "a b", "a +", "+ ", "(", ")", "[", "]", "f(", "f(a,", "a..b", "a.", ".a", "a!.", "1 2", "a ? b ? c : d", "a : b",
+	// a member name on the line after its dot (the parser looks ahead there), followed by stray / invalid bytes inside a list
+	"f(a.\nb #)", "[a.\nb #]", "f(a!.\nb @)", "f(a.\nb)", "[a.\nb]", "f(a\n.b #)", "f(a.\n#)", "[a.\n'x' #]", "f(a #)", "[# a]", "f(a.\nb #, c)", "[a.\nb # c]", "f(a.\nb \\)", "f(a.\n b ` )", "a.\nb #",
 }
 
 // vpC02LongTexts: longer generated formulas (a few hundred tokens): many sibling prefix
